@@ -158,13 +158,13 @@ def run_units(fn, units, hard_timeout, progress=None, deadline=None):
                 done += 1
                 progressed = True
                 yield {'unit': u, 'error': 'child died (exit %s)' % p.exitcode}
-            elif time.time() - t0 > hard_timeout:
+            elif time.time() - t0 > (hard_timeout(u) if callable(hard_timeout) else hard_timeout):
                 p.kill()
                 p.join()
                 pc.close()
                 done += 1
                 progressed = True
-                yield {'unit': u, 'error': 'hard timeout %ds' % hard_timeout, 'timeout': True}
+                yield {'unit': u, 'error': 'hard timeout %ds' % (hard_timeout(u) if callable(hard_timeout) else hard_timeout), 'timeout': True}
             else:
                 still.append((p, pc, u, t0))
         running = still
